@@ -75,7 +75,10 @@ def decode(x, module=None):
                 name = k
                 if k.startswith("__") and not k.endswith("__"):
                     name = f"_{cls.__name__.lstrip('_')}{k}"
-                object.__setattr__(obj, name, decode(v, module))
+                try:
+                    object.__setattr__(obj, name, decode(v, module))
+                except AttributeError:
+                    pass  # a field of a base class that this class overrides with a read-only property
             return obj
         return {k: decode(v, module) for k, v in x.items()}
     if isinstance(x, list):
@@ -167,9 +170,12 @@ def search(prep, spec, timeout, excl=()) -> dict:
 
 def judge(prep, inputs_json: dict, timeout: float, excl=()) -> dict:
     reg, ctx, unit, c, mod, owner, fn = prep
-    inputs = {k: decode(v, mod) for k, v in inputs_json.items()}
     is_init = unit.endswith(".__init__") and owner is not None
-    if is_init and "self" not in inputs:
+    inputs = {k: decode(v, mod) for k, v in inputs_json.items() if not (is_init and k == "self")}
+    if is_init:
+        # the constructor runs on a fresh object; a 'self' in a solver model is the unconstrained pre-state
+        inputs_json = {k: v for k, v in inputs_json.items() if k != "self"}
+        inputs = {k: v for k, v in inputs.items() if k != "self"}
         inputs["self"] = owner.__new__(owner)
     local = dict(inputs)
     # class invariants are part of the method's pre- and postcondition (same rule as the prover)
